@@ -703,6 +703,20 @@ func ChildViews(tx *bbolt.Tx, s *Stores, m *Model, names, roles []string) []Viol
 		listed   []string // ids its lookups / queries must return
 		validIds []string
 	}
+	for _, id := range U.People {
+		_, e1 := s.People.LoadById(tx, id)
+		_, e2 := s.Staff.LoadById(tx, id)
+		_, e3 := s.PX.LoadById(tx, id)
+		if (e1 == nil) != containsStr(all, id) || (e1 != nil && !boltz.IsErrNotFoundErr(e1)) {
+			bad("load-by-id:"+StPeople, "people.LoadById(%q) err=%v, entity listed=%v", id, e1, containsStr(all, id))
+		}
+		if (e2 == nil) != containsStr(staff, id) || (e2 != nil && !boltz.IsErrNotFoundErr(e2)) {
+			bad("load-by-id:"+StStaff, "staff.LoadById(%q) err=%v, has staff data=%v", id, e2, containsStr(staff, id))
+		}
+		if (e3 == nil) != containsStr(all, id) || (e3 != nil && !boltz.IsErrNotFoundErr(e3)) {
+			bad("load-by-id:"+StPX, "px.LoadById(%q) err=%v, parent entity listed=%v", id, e3, containsStr(all, id))
+		}
+	}
 	for _, v := range []view{{StStaff, s.Staff, staff, staff}, {StPX, s.PX, all, px}, {StPeople, s.People, all, all}} {
 		for _, id := range all {
 			want := containsStr(v.validIds, id)
@@ -715,6 +729,36 @@ func ChildViews(tx *bbolt.Tx, s *Stores, m *Model, names, roles []string) []Viol
 		}
 		if got := cursorIds(v.store.IterateValidIds(tx, ast.BoolNodeTrue)); !sameSet(got, v.validIds) {
 			bad("iterate-valid-ids:"+v.name, "%s.IterateValidIds=%q, want %q", v.name, got, v.validIds)
+		}
+		// cursor Seek: positions at the first listed id >= the sought one
+		for _, id := range all {
+			c := v.store.IterateIds(tx, ast.BoolNodeTrue)
+			c.Seek([]byte(id))
+			want := ""
+			for _, l := range v.listed {
+				if l >= id {
+					want = l
+					break
+				}
+			}
+			got := ""
+			if c.IsValid() {
+				got = string(c.Current())
+			}
+			if got != want {
+				bad("seek:"+v.name, "%s.IterateIds().Seek(%q) is at %q, want %q (listed %q)", v.name, id, got, want, v.listed)
+			}
+		}
+		if ids, cnt, err := v.store.QueryIds(tx, "limit 2"); err != nil {
+			bad("query:"+v.name, "%s.QueryIds(limit 2) failed: %v", v.name, err)
+		} else {
+			want := v.listed
+			if len(want) > 2 {
+				want = want[:2]
+			}
+			if strings.Join(ids, ",") != strings.Join(want, ",") || int(cnt) != len(v.listed) {
+				bad("query-limit:"+v.name, "%s.QueryIds(limit 2)=%q count %d, want %q count %d", v.name, ids, cnt, want, len(v.listed))
+			}
 		}
 		ids, cnt, err := v.store.QueryIds(tx, "")
 		if err != nil {
